@@ -390,6 +390,23 @@ struct Agg {
     samples: Vec<Value>,
 }
 
+/// TCP with a connect timeout of the order of the probe spacing: connection attempts towards
+/// silent / ICMP-answering hops expire in the very polls in which younger attempts complete.
+pub fn tcp_expiry_tasks(bound: usize) -> Vec<Task> {
+    let mut tasks = vec![];
+    for cell in all_cells().into_iter().filter(|c| c.proto == crate::simnet::Proto::Tcp) {
+        for topo in ["L2", "L3", "silent-mid", "dup"] {
+            for ms in [5u64, 15, 25, 35] {
+                let mut p = TraceParams::default();
+                p.tcp_connect_timeout = std::time::Duration::from_millis(ms);
+                p.packet_size = if cell.v6 { 96 } else { 84 };
+                tasks.push(Task { cell, topo, params: p, bound });
+            }
+        }
+    }
+    tasks
+}
+
 pub fn run(args: &Args) -> i32 {
     if let Some(path) = &args.replay {
         return replay(path);
@@ -414,6 +431,7 @@ pub fn run(args: &Args) -> i32 {
             }
         }
     }
+    tasks.extend(tcp_expiry_tasks(d_all));
     if tier == Tier::Thorough {
         // three rounds (carried-over target distance) on the base cells
         for cell in drive::base_cells() {
@@ -545,7 +563,7 @@ pub fn run(args: &Args) -> i32 {
     rep.set("determinism_replays", json!(a.determinism_replays));
     rep.set("rule", json!(format!(
         "56 cells x {} topologies x first_ttl{{1,2}}, {} rounds: ALL executions of the real Builder->Tracer->Strategy->Channel<SimSocket>->codec->State stack with <= d deviations (delay, reorder, duplicate, loss) from the ideal network, d={} (all) / {} (base cells); states = nodes of the choice tree; distinct_nontrivial = distinct published-round digests summed over tasks",
-        TOPOLOGIES.len(), rounds, d_all, d_base)));
+        TOPOLOGIES.len(), rounds, d_all, d_base) + "; + every tcp cell x {L2,L3,silent-mid,dup} x tcp connect timeout {5,15,25,35} ms (connection attempts expiring in the polls in which younger ones complete)"));
     rep.observe("executions_with_awaited_probe", json!(a.awaited_runs));
     rep.observe("executions_with_reorder", json!(a.reorder_runs));
     rep.observe("executions_with_duplicate", json!(a.dup_runs));
@@ -597,9 +615,13 @@ pub fn print_trace(o: &RunOutcome) {
 }
 
 pub fn replay(path: &str) -> i32 {
+    replay_as(path, "C01")
+}
+
+pub fn replay_as(path: &str, prop: &str) -> i32 {
     let (t, choices) = load_task(path);
     let o = run_once(&t, Chooser::new(&choices, 100_000));
-    println!("replay C01: cell={} topo={} choices={:?}", t.cell.name(), t.topo, choices);
+    println!("replay {prop}: cell={} topo={} tcp_connect_timeout={:?} choices={:?}", t.cell.name(), t.topo, t.params.tcp_connect_timeout, choices);
     print_trace(&o);
     let bad = judge(&t, &o);
     for (k, d) in &bad {
@@ -609,7 +631,7 @@ pub fn replay(path: &str) -> i32 {
         println!("replay: property held");
         0
     } else {
-        println!("VIOLATION property=C01 replay={path}");
+        println!("VIOLATION property={prop} replay={path}");
         1
     }
 }
